@@ -923,6 +923,12 @@ impl<K: KeyT> World<K> {
                         // (whether clear keeps or releases blocks is not part of any property: the
                         // model comparison reports a change of behaviour, the oracle does not)
                         let _ = before;
+                        // ... but "empties the interner completely": no block it keeps may still count bytes as
+                        // used (they would be lost to every later string, cycle after cycle)
+                        let left: Vec<(usize, usize)> = self.slots[si].obj.blocks().iter().filter(|b| b.2 != 0).map(|b| (b.1, b.2)).collect();
+                        if !left.is_empty() {
+                            self.fail("C13", "clear-left-bytes-in-use", format!("after clear() {} block(s) still count bytes as used (capacity, used): {:?}", left.len(), &left[..left.len().min(4)]));
+                        }
                         "ok".into()
                     }
                     _ => "bad-op".into(),
